@@ -134,6 +134,9 @@ def check_one(text, schema, strict_blank=True):
         for t in tags:
             if t.org_tag != text[t.span[0]:t.span[1]]:
                 out.append(("org-tag-not-slice", {"text": text, "span": t.span, "org_tag": t.org_tag}))
+            ext = t.extension
+            if ext and not t.org_tag.endswith(ext):
+                out.append(("extension-not-a-suffix-of-the-source-tag", {"text": text, "org_tag": t.org_tag, "extension": ext}))
         for g in groups[1:]:
             s, e = g.span
             if not (text[s] == "(" and text[e - 1] == ")") or g.get_original_hed_string() != text[s:e]:
@@ -242,6 +245,42 @@ def worker(rec, shard, nshards, sigma, n, strict, seed, label):
             rec.sample({"text": text, "balanced": balanced, "ref_tree": repr(ref)[:120]})
 
 
+FOLD_BASES = ["Definition/Foo", "Press/x", "Press", "Glass/Green-ish", "Offset", "Respond", "Fixate/a b", "Loudness/3",
+              "Item/Strasse/Red", "Item/fix/Blue", "Stiff/x", "Sensory-event"]
+FOLD_SUBS = [("ss", "\u00df"), ("fi", "\ufb01"), ("ff", "\ufb00"), ("s", "\u017f"), ("i", "\u0130"), ("st", "\ufb06"), ("S", "\u1e9e"),
+             ("n", "\u0149")]
+FOLD_CONTEXTS = ["{}", "({}, Red)", "Blue, {}", "(({}))", "{}, {}"]
+
+
+def fold_texts():
+    """Schema names (and extensions) with one piece replaced by a character whose case folding has another length."""
+    out = []
+    for b in FOLD_BASES:
+        for old, new in FOLD_SUBS:
+            for at in range(len(b)):
+                if b.startswith(old, at) or b.casefold().startswith(old, at):
+                    v = b[:at] + new + b[at + len(old):]
+                    for c in FOLD_CONTEXTS:
+                        out.append(c.format(*([v] * c.count("{}"))))
+    return sorted(set(out))
+
+
+def worker_fold(rec, shard, nshards, seed):
+    from hed import load_schema_version
+    for version in ("8.3.0", "8.2.0"):
+        schema = load_schema_version(version)
+        texts = fold_texts()
+        for i in core.shard_order(len(texts), shard, nshards, seed):
+            viols, balanced = check_one(texts[i], schema, True)
+            rec.n("evaluations")
+            rec.n("transitions", 5)
+            rec.n("distinct_nontrivial")
+            rec.state(("fold", version, texts[i][:1]))
+            rec.outcome("fold:" + ("ok" if not viols else viols[0][0]))
+            for fp, info in viols:
+                rec.violation("C02:case-folding-changes-length:" + fp, kind=fp, schema=version, **info)
+
+
 def fingerprint(fp, info):
     text = info.get("text", "")
     if fp == "unbalanced-no-mismatch-issue" and text.count("(") == text.count(")"):
@@ -262,6 +301,8 @@ def run(ctx):
                                "strings_ext": space_size(len(sig_ext), n_ext)}
     ctx.parallel(worker, sig, n_base, True, ctx.seed, "base")
     ctx.parallel(worker, sig_ext, n_ext, False, ctx.seed, "ext")
+    ctx.rec.notes["bounds"]["fold_texts"] = len(fold_texts())
+    ctx.parallel(worker_fold, ctx.seed)
     ctx.rec.counts["states"] = len(ctx.rec.states)
 
 
